@@ -332,7 +332,9 @@ func (s *Server) Session(strm signaling.SRPCSignaling_SessionStream) error {
 		currUserped := currLocalPeer != ourPeerTkr
 		var currOpen *uint64
 		if currRemotePeer != nil {
-			currOpen = &sess.seqno
+			// copy the value: sess.seqno changes when either peer re-attaches.
+			currSeqno := sess.seqno
+			currOpen = &currSeqno
 		}
 		waitCh = sess.getWaitCh()
 
@@ -359,8 +361,12 @@ func (s *Server) Session(strm signaling.SRPCSignaling_SessionStream) error {
 			return signaling.ErrUserpedSession
 		}
 
-		// Send the opened or closed message if opened or closed.
-		if prevSentOpenToLocal != currOpen {
+		// Send the opened or closed message if opened or closed or re-opened.
+		openChanged := (prevSentOpenToLocal == nil) != (currOpen == nil)
+		if !openChanged && currOpen != nil {
+			openChanged = *prevSentOpenToLocal != *currOpen
+		}
+		if openChanged {
 			var err error
 			if currOpen != nil {
 				err = strm.Send(&signaling.SessionResponse{
